@@ -99,15 +99,18 @@ def run(ctx):
 
     tr = Translator()
     from kio.static import primitive as P
+    from kio.schema.errors import ErrorCode
 
     anns = [P.i32, P.i32 | None, typing.Optional[P.i32], typing.Union[P.i32, None, str], P.i32 | str, P.i32 | str | None,
             tuple[P.i32, ...], tuple[P.i32 | None, ...], tuple[P.i32, ...] | None, tuple[P.i32], tuple[P.i32, P.i32], tuple,
             tuple[()], list[P.i32], str, str | None, None | str, uuid.UUID | None, bytes, P.Records, P.Records | None,
             typing.Optional[tuple[str, ...]], tuple[typing.Optional[str], ...], int, float, P.f64, P.TZAware | None,
-            typing.Union[str, None], dict[str, int], tuple[tuple[P.i32, ...], ...]]
+            typing.Union[str, None], dict[str, int], tuple[tuple[P.i32, ...], ...], ErrorCode, ErrorCode | None, bool, uuid.UUID,
+            P.i64Timedelta, P.TZAware, P.u8, P.Records]
     metas = [{"kafka_type": "int32"}, {}, {"kafka_type": 5}, {"kafka_type": "string", "tag": 0}, {"kafka_type": "string", "tag": -1},
              {"kafka_type": "string", "tag": 2**35}, {"kafka_type": "string", "tag": True}, {"kafka_type": "string", "tag": "1"},
-             {"kafka_type": "string", "tag": 2**35 - 1}, {"kafka_type": "uuid", "tag": 3}]
+             {"kafka_type": "string", "tag": 2**35 - 1}, {"kafka_type": "uuid", "tag": 3}, {"kafka_type": "error_code", "tag": 1},
+             {"kafka_type": "records", "tag": 2}]
     fcases = []
     for a in anns:
         for m in metas:
@@ -206,8 +209,8 @@ def run(ctx):
                                                  cwd=d, stdout=subprocess.PIPE, stderr=subprocess.STDOUT, text=True)))
     failing_d = []
     for name, kind, start, p in procs:
-        out = p.communicate()[0]
-        if p.returncode != 0:
+        rc, out = common.coq_result(d, name, p)
+        if rc != 0:
             errs.append(f"{name}: {out[-1000:]}")
         elif kind == "d":
             failing_d += common.parse_nat_list(out)
